@@ -1,36 +1,16 @@
 package main
 
 import (
-	"encoding/json"
 	"fmt"
-	"os"
 
-	"Havoc/pkg/profile"
 	hcl "Havoc/pkg/profile/yaotl"
-	"Havoc/pkg/profile/yaotl/hclsimple"
+	"Havoc/pkg/profile/yaotl/hclwrite"
 )
 
 func main() {
-	for _, f := range os.Args[1:] {
-		src, _ := os.ReadFile(f)
-		var c profile.HavocConfig
-		func() {
-			defer func() {
-				if r := recover(); r != nil {
-					fmt.Println("PANIC", r)
-				}
-			}()
-			err := hclsimple.Decode("p.yaotl", src, nil, &c)
-			fmt.Printf("== %s\n", f)
-			if d, ok := err.(hcl.Diagnostics); ok {
-				for _, x := range d {
-					fmt.Printf("  diag: %s | %s | subj=%v\n", x.Summary, x.Detail, x.Subject)
-				}
-			} else {
-				fmt.Printf("  err=%v\n", err)
-			}
-			b, _ := json.Marshal(c)
-			fmt.Printf("  cfg=%s\n", b)
-		}()
+	for _, src := range []string{"a   =   1\n", "a =\t1\n", "b   =\t[1,\n 2]\n", "blk \"x\"   {\n    b=1\n}\n", "a = 1 # c\n\n\n# d\n", "a=<<EOT\n  x\nEOT\n", "a = 1", "\ta = 1\n", "a = \"x${ 1 +\t2 }\"\n", "a = 1 /* x */ \n  \n", "a = 1\r\nb = 2\r\n"} {
+		f, _ := hclwrite.ParseConfig([]byte(src), "x.hcl", hcl.Pos{Line: 1, Column: 1})
+		raw := f.BuildTokens(nil).Bytes()
+		fmt.Printf("%q -> raw %q  same=%v  fmt==Bytes:%v\n", src, raw, string(raw) == src, string(hclwrite.Format([]byte(src))) == string(f.Bytes()))
 	}
 }
